@@ -1530,3 +1530,5 @@ MANIFEST = {
             "a[:,None], row.T, broadcast and transposed views — are part of every run since F15). Trusted: Lean kernel, axioms {propext, Classical.choice, Quot.sound}, NumPy's "
             "as_strided/pad/tensordot/max index semantics, the harness.",
 }
+
+MANIFEST_ADDENDUM = 'Oracle additions: inputs strided on a leading axis only (a[::2], a[::-1]); fractional window/step/dilation sequences must be rejected.'
